@@ -236,19 +236,18 @@ def _settle(s, rounds=2):
             s.wait_quiescent()
 
 
-def _await(s, ts, rounds=8):
-    """Wait for the driver threads.  The main task stays passive (it only runs when nothing else can), and while a
-    driver is blocked on something only a ProcessWatcher's periodic poll can provide (stop() joining a watcher that
-    was never stopped, wait_for_process) it lets the poll timers come due a few times; if that does not help the
-    final join() reports the exact deadlock."""
+def _stop_op(s, th, trick, rounds=6):
+    """trick.stop() runs in a thread of its own while the calling driver stays passive (it only runs when nothing else
+    can): should stop() block on something only a ProcessWatcher's periodic poll can provide (joining a watcher that
+    was never stopped), the poll timers are let come due a few times; if that does not help, the final join() makes
+    the scheduler report the exact deadlock."""
+    st = th.Thread(target=lambda: _call(s, "stop", trick.stop), name="stopper")
+    st.start()
     for _ in range(rounds):
         s.wait_quiescent()
-        if all(t._finished for t in ts):
+        if st._finished or not s.fire_manual_timers():
             break
-        if not s.fire_manual_timers():
-            break
-    for t in ts:
-        t.join()
+    st.join()
 
 
 def ar_program(params):
@@ -302,7 +301,7 @@ def ar_program(params):
                     s.yield_("envexit")
                     _exit_child(s)
                 elif op[0] == "stop":
-                    _call(s, "stop", trick.stop)
+                    _stop_op(s, th, trick)
                 elif op[0] == "settle":
                     _settle(s)
                     s.log("quiescent")
@@ -310,7 +309,8 @@ def ar_program(params):
         ts = [th.Thread(target=worker, args=(ops,), name=n) for n, ops in sorted(threads.items())]
         for t in ts:
             t.start()
-        _await(s, ts)
+        for t in ts:
+            t.join()
         _settle(s)
         s.log("quiescent")
         s.log("final", live=_live_helpers(s), count=trick.restart_count)
